@@ -84,6 +84,11 @@ Theorem Scanners_scheme_agrees : forall s, Cm.scheme_matches s = is_some (scan_s
 Proof. exact scheme_agrees. Qed.
 Print Assumptions Scanners_scheme_agrees.
 
+(* tasklist: the indexing s[t1] in the action never panics (the tag lies inside the slice) *)
+Theorem Scanners_tasklist_no_panic : forall s, exists r, scan_tasklist s = Res.Ok r.
+Proof. exact tasklist_no_panic. Qed.
+Print Assumptions Scanners_tasklist_no_panic.
+
 (* non-vacuity *)
 Example Scanners_atx_example : scan_atx_heading_start [x23; x23; x20; x20; x61] = Some 4.
 Proof. vm_compute. reflexivity. Qed.
